@@ -641,7 +641,8 @@ def case_x(ck, rng):
 
 def case(ck, i):
     rng = ck.rng()
-    fam = pick(rng, ["cl"] * 6 + ["re"] * 3 + ["x"] * 2)
+    fams = ["cl"] * 6 + ["re"] * 3 + ["x"] * 2
+    fam = fams[(i * 4 + int(ck.rng(777).integers(0, len(fams)))) % len(fams)]      # round-robin
     if fam == "cl":
         case_cl(ck, rng)
     elif fam == "re":
